@@ -878,7 +878,15 @@ class SourceHandler:
             self._start_positive_ack_procedure()
             return
         if cancel_eof:
-            self._reset_internal(False)
+            # Unacknowledged mode: the transaction is completed (cancelled) as soon as the EOF
+            # (cancel) PDU was issued. This completion is reported to the user as well.
+            assert self._params.cond_code_eof is not None
+            self._params.finished_params = FinishedParams(
+                condition_code=self._params.cond_code_eof,
+                delivery_code=DeliveryCode.DATA_INCOMPLETE,
+                file_status=FileStatus.FILE_STATUS_UNREPORTED,
+            )
+            self._notice_of_completion()
             return
         if self._params.closure_requested:
             assert self._params.remote_cfg is not None
